@@ -1,13 +1,28 @@
 package replication
 
 // C04 - A deposed or fenced authority cannot acknowledge appends.
-// Entry point of the shared replication world (../C01/world_test.go) with the C04 oracle.
+// Entry point of the shared replication world (../C01/world_test.go) with the C04 oracle,
+// wrapped by vw4 (c04_restart_test.go: older authorities delivered after a restart).
 
 import (
+	"fmt"
+	"os"
 	"testing"
 
 	"github.com/WuKongIM/WuKongIM/pkg/zzverif/ev"
+	"github.com/WuKongIM/WuKongIM/pkg/zzverif/mc"
 )
+
+func vw4Run(r *ev.R, name string, o vwOpts, st *vwStats, xs *vw4Counters, depth, devs int, note string) mc.Result {
+	depth, devs = vwDebugBounds(depth, devs)
+	o.noPrune = os.Getenv("VERIF_DEBUG_NOPRUNE") == "1"
+	b := vwBounds(o)
+	b["events"].(map[string]bool)["install-stale-authority-after-restart{fence,term,epoch}"] = o.evOlder
+	return mc.Run(r, mc.System{
+		Name: name, New: func() mc.Instance { return newVW4(o, st, xs) },
+		MaxDepth: depth, MaxDeviations: devs, Bounds: b, Note: note,
+	})
+}
 
 func TestVerifC04(t *testing.T) {
 	r := ev.Start(t, "C04")
@@ -18,12 +33,42 @@ func TestVerifC04(t *testing.T) {
 		oC04: true, reportKF: false,
 	}
 	st := &vwStats{}
-	note := "N=3 voters, Q=2, one channel; authorities (epoch, term, fence) allocated by next-term, fence, unfence and next-epoch installs plus synthetic older authorities; initial state: node 1 installed under (1,1,1); a path ends (silently, counted) at a transition that matches the known C01 defect KF-C01-1"
-	res := vwRun(r, "replication-world/C04/deep", o, st, ev.Pick(r, 4, 5), ev.Pick(r, 1, 1), note)
-	res2 := vwRun(r, "replication-world/C04/faulty", o, st, ev.Pick(r, 3, 4), ev.Pick(r, 2, 2), note)
+	xs := &vw4Counters{}
+	note := "N=3 voters, Q=2, one channel; authorities (epoch, term, fence) allocated by next-term, fence, unfence and next-epoch installs plus synthetic older authorities (in-process: older-*; after a restart: stale-*); initial state: node 1 installed under (1,1,1); a path ends (silently, counted) at a transition that matches the known C01 defect KF-C01-1"
+	res := vw4Run(r, "replication-world/C04/deep", o, st, xs, ev.Pick(r, 4, 5), ev.Pick(r, 1, 1), note)
+	res2 := vw4Run(r, "replication-world/C04/faulty", o, st, xs, ev.Pick(r, 3, 4), ev.Pick(r, 2, 2), note)
 	res.States += res2.States
+	// seeded boxes: the leader (node 1) holds a NON-EMPTY log whose tail was written under
+	// the newest authority, so that a restart (crash:1) followed by a stale authority of
+	// every kind is reachable within the quick depth.
+	seeds := []struct {
+		name   string
+		prefix []string
+	}{
+		{"next-term", []string{"install:1:next", "commit:1:c1"}},                         // tail under (1,2,2): stale-fence (1,2,1), stale-term (1,1,5)
+		{"fence-bump", []string{"install:1:fence", "install:1:unfence", "commit:1:c1"}}, // tail under (1,1,3): stale-fence (1,1,2)
+		{"next-epoch", []string{"install:1:epoch", "commit:1:c1"}},                      // tail under (2,1,2): stale-epoch (1,6,7), stale-fence (2,1,1)
+	}
+	var seeded int64
+	for _, s := range seeds {
+		os2 := o
+		os2.prefix = s.prefix
+		os2.maxInstalls = len(s.prefix) // prefix allocations + one more
+		sr := vw4Run(r, "replication-world/C04/restart-after-"+s.name, os2, st, xs, ev.Pick(r, 3, 4), ev.Pick(r, 1, 1),
+			note+"; initial state = after "+fmt.Sprint(s.prefix)+" (leader with a non-empty log whose tail was written under its newest authority)")
+		seeded += sr.States
+	}
 	vwAssumptions(r)
 	vwCounters(r, st)
+	for k, v := range map[string]int64{
+		"stale_authority_offered_after_restart": xs.staleOffered.Load(), "stale_authority_refused": xs.staleRefused.Load(),
+		"stale_authority_refused_on_non_empty_log": xs.staleRefusedNonEmptyLog.Load(),
+		"observation_stale_authority_installed_without_durable_memory_of_newer": xs.staleAcceptedNoDurableMemory.Load(),
+		"stale_fence_offered": xs.staleFence.Load(), "stale_term_offered": xs.staleTerm.Load(), "stale_epoch_offered": xs.staleEpoch.Load(),
+		"acks_checked_against_newer_entries_below": xs.acksChecked.Load(),
+	} {
+		r.Count(k+"_executions_incl_replays", v)
+	}
 	if r.Replay() != nil {
 		return
 	}
@@ -33,5 +78,7 @@ func TestVerifC04(t *testing.T) {
 	r.Guard("older-installs-refused", st.olderInstallRefused.Load() >= 10, "%d installs of an older authority refused", st.olderInstallRefused.Load())
 	r.Guard("fenced-installs-refused", st.fenceInstallRefused.Load() >= 1, "%d installs with an active write fence refused", st.fenceInstallRefused.Load())
 	r.Guard("acknowledged-commits", st.acks.Load() >= 10, "%d acknowledged receipts", st.acks.Load())
-	r.Guard("states", res.States >= 100, "%d states", res.States)
+	r.Guard("stale-authorities-after-restart", xs.staleFence.Load() >= 3 && xs.staleTerm.Load() >= 1 && xs.staleEpoch.Load() >= 1 && xs.staleRefusedNonEmptyLog.Load() >= 3,
+		"after a restart: %d lower-fence, %d lower-term, %d lower-epoch authorities offered; %d refused on a non-empty log", xs.staleFence.Load(), xs.staleTerm.Load(), xs.staleEpoch.Load(), xs.staleRefusedNonEmptyLog.Load())
+	r.Guard("states", res.States >= 100 && seeded >= 30, "%d + %d states", res.States, seeded)
 }
